@@ -403,7 +403,9 @@ func checkSegDelta(w *World, r *Report) {
 				has = true
 			}
 		}
-		if has {
+		if has && !zeroGuarded(fn, u.vals, perSegment, delta, cc) {
+			r.FailC("segdelta", key, []string{"zeroentry"}, w.Pos(u.mu.Pos()), "the idDelta is added to the value taken from the glyph id array whether or not that value is 0: an entry 0 means \"no glyph\" and must stay 0 (the format adds idDelta to non-zero entries only), otherwise the holes of the array map to glyph idDelta", nil)
+		} else if has {
 			r.OK("segdelta", key, w.Pos(u.mu.Pos()), "computed from the segment's idDelta")
 		} else {
 			r.Fail("segdelta", key, w.Pos(u.mu.Pos()), "the glyph id stored here is not computed from the segment's idDelta (the per-segment element the other mapping loop adds to the code): a segment that uses the glyph id array together with a non-zero idDelta decodes to glyph ids that differ from what the format defines (array value + idDelta modulo 65536 for non-zero array values)", nil)
@@ -806,4 +808,62 @@ func checkLookupRange(w *World, r *Report) {
 	if n == 0 {
 		r.OK("lookuprange", r.MkKey("lookuprange", "cmap", "Lookup methods"), "-", "no Lookup method narrows its rune parameter")
 	}
+}
+
+// zeroGuarded: where the stored value adds the idDelta to an element that is
+// not read per segment (an entry of the glyph id array), that addition is
+// control-dependent on a comparison of the entry with 0. Sums with the code
+// (the delta form) need no such test.
+func zeroGuarded(fn *ssa.Function, vals map[ssa.Value]bool, perSegment func(ssa.Value) (ssa.Value, bool), delta map[ssa.Value]bool, cc map[*ssa.BasicBlock][]ssa.Value) bool {
+	strip := func(v ssa.Value) ssa.Value {
+		for {
+			switch x := v.(type) {
+			case *ssa.Convert:
+				v = x.X
+			case *ssa.ChangeType:
+				v = x.X
+			default:
+				return v
+			}
+		}
+	}
+	for v := range vals {
+		bo, ok := v.(*ssa.BinOp)
+		if !ok || bo.Op != token.ADD {
+			continue
+		}
+		var entry ssa.Value
+		isDelta := false
+		for _, op := range []ssa.Value{bo.X, bo.Y} {
+			s := strip(op)
+			if arr, ok := perSegment(s); ok && delta[arr] {
+				isDelta = true
+				continue
+			}
+			if ld, ok := s.(*ssa.UnOp); ok && ld.Op == token.MUL {
+				if _, isIA := ld.X.(*ssa.IndexAddr); isIA {
+					if _, per := perSegment(s); !per {
+						entry = s
+					}
+				}
+			}
+		}
+		if !isDelta || entry == nil {
+			continue
+		}
+		guarded := false
+		for _, c := range cc[bo.Block()] {
+			cmp, ok := c.(*ssa.BinOp)
+			if !ok || (cmp.Op != token.NEQ && cmp.Op != token.EQL) {
+				continue
+			}
+			if k, ok := cmp.Y.(*ssa.Const); ok && k.Value != nil && k.Int64() == 0 && strip(cmp.X) == entry {
+				guarded = true
+			}
+		}
+		if !guarded {
+			return false
+		}
+	}
+	return true
 }
